@@ -290,7 +290,8 @@ func c17Run(c c17Case) error {
 		}
 		honoured = !refused
 		inLang = func(line string) bool { ok, _ := sp.Valid(line); return ok && n >= 1 }
-		entropy = toRecipe(sp).Entropy()
+		cr := toRecipe(sp)
+		entropy = cr.Entropy()
 	case c.Sub == "words":
 		var n int
 		fmt.Sscanf(get("size", "4"), "%d", &n)
@@ -392,14 +393,15 @@ var fileWordPool = []string{"100%", "%d", "a%sb", "50%%", "zanzibar", "quokka", 
 
 func c17Gen(t *rapid.T) c17Case {
 	var c c17Case
-	k := rapid.IntRange(0, 19).Draw(t, "subkind")
+	// (rapid favours the ends of a range: the rare shapes sit in the middle)
+	k := rapid.IntRange(0, 59).Draw(t, "subkind")
 	switch {
-	case k == 0:
+	case k == 31:
 		c.Sub = ""
 		return c
-	case k == 1:
+	case k == 29 || k == 30:
 		c.Sub = rapid.SampledFrom([]string{"recipe", "word", "chars", "Characters", "help"}).Draw(t, "badsub")
-	case k < 11:
+	case k < 29:
 		c.Sub = "characters"
 	default:
 		c.Sub = "words"
